@@ -223,3 +223,8 @@ for n in ["send_plan_noatt_enobufs", "send_plan_att_enobufs"]:
     HARNESSES[n]["tier"] = "thorough"
     HARNESSES[n]["tiers"] = {}
     HARNESSES[n]["timeout"] = 2400
+
+for n in ["send_plan_noatt_enobufs_q", "send_plan_att_enobufs_q", "send_plan_noatt_nofault", "send_plan_att_nofault", "send_plan_noatt_enobufs", "send_plan_att_enobufs"]:
+    HARNESSES[n]["mem_gb"] = 30   # a mutated sender made the 14 GB default run out of memory (=> inconclusive, not a verdict)
+
+H("modes_timeout_queued_then_hangup", ["C10", "C03"], sym="message bytes symbolic; a timed receive when data and the hang-up are both pending", bounds="unwind 8")
